@@ -25,7 +25,7 @@ ASSUMPTIONS = [
 ]
 DECIDING = ['bp.agent:Agent._do_fwd', 'bp.agent:Agent.send_bundle', 'bp.util:BundleContainer.fix_block_num',
             'bp.util:BundleContainer.add_block', 'bp.encoding.blocks:CanonicalBlock.ensure_block_type_specific_data']
-REQUIRED_OBS = ['forwards_checked', 'hop_count_blocks_checked', 'age_blocks_checked', 'prev_node_replaced']
+REQUIRED_OBS = ['forwards_checked', 'hop_count_blocks_checked', 'age_blocks_checked', 'prev_node_replaced', 'fragmented_forwards_checked']
 
 NODE = 'dtn://me/'
 NOW_DTN_MS = (1767225600 - 946684800) * 1000
@@ -113,6 +113,64 @@ def make_node():
                      tx_routes=[dict(pattern=r'dtn://next-a/.*', raw={'r': 'a'}), dict(pattern=r'dtn://next-b/.*', raw={'r': 'b'}),
                                 dict(pattern=r'.*', raw={'r': 'other'})])
     return sim, node
+
+
+def check_forward_fragmented(bundle, obs):
+    ''' The same bundle forwarded over a route whose MTU is smaller than the bundle: what leaves are fragments; put together by offset
+    they must give the received payload, and each carries the received primary block fields (plus the fragment fields). '''
+    from vf.world.sim import Sim
+    from vf import bp_harness as bh
+    payload = bpv7.payload_of(bundle)['data']
+    if len(payload) < 40 or bundle['primary']['flags'] & (bpv7.FLAG_NO_FRAGMENT | bpv7.FLAG_IS_FRAGMENT | bpv7.FLAG_ADMIN):
+        return [], None
+    enc = bpv7.encode(bundle)
+    sim = Sim(0, 'eager')
+    node = bh.BpNode(sim, NODE, rx_routes=[(r'dtn://next-.*', 'forward')], tx_routes=[dict(pattern=r'.*', mtu=len(enc) - len(payload) // 2, raw={'r': 'narrow'})])
+    err = node.recv(enc)
+    sim.settle(20000)
+    problems = []
+    detail = dict(received=enc.hex(), dwell_ms=0, fragmenting_route=True)
+    if err is not None:
+        return ['receive raised %s: %s' % (type(err).__name__, err)], detail
+    frags = []
+    for (_no, _raw, data) in node.cl.sent:
+        try:
+            dec, _probs = bpv7.decode(data)
+        except bpv7.DecodeError as derr:
+            problems.append('an output on the fragmenting route is not decodable: %s' % derr)
+            continue
+        same = (dec['primary']['src'], dec['primary']['create_time'], dec['primary']['seqno']) == (
+            bundle['primary']['src'], bundle['primary']['create_time'], bundle['primary']['seqno'])
+        if same:
+            frags.append(dec)
+    if not frags:
+        # (whether fragmentation is possible at all is C05's subject)
+        return problems, detail
+    if len(frags) == 1 and not frags[0]['primary']['flags'] & bpv7.FLAG_IS_FRAGMENT:
+        return problems, detail
+    obs['fragmented_forwards_checked'] = obs.get('fragmented_forwards_checked', 0) + 1
+    rebuilt = bytearray(len(payload))
+    covered = set()
+    for dec in frags:
+        fpri = dec['primary']
+        fpay = bpv7.payload_of(dec)
+        if not fpri['flags'] & bpv7.FLAG_IS_FRAGMENT or fpay is None:
+            problems.append('forwarded over a narrow route: a whole bundle left next to fragments')
+            continue
+        off = fpri['frag_offset']
+        rebuilt[off:off + len(fpay['data'])] = fpay['data']
+        covered |= set(range(off, off + len(fpay['data'])))
+        for field in ('version', 'dest', 'src', 'report_to', 'create_time', 'seqno', 'lifetime'):
+            if fpri[field] != bundle['primary'][field]:
+                problems.append('forwarded as fragments: primary.%s changed: %r -> %r' % (field, bundle['primary'][field], fpri[field]))
+        if fpri['flags'] != bundle['primary']['flags'] | bpv7.FLAG_IS_FRAGMENT:
+            problems.append('forwarded as fragments: flags 0x%x -> 0x%x' % (bundle['primary']['flags'], fpri['flags']))
+        if fpri['total_adu_len'] != len(payload):
+            problems.append('forwarded as fragments: total length %r, received payload has %d octets' % (fpri['total_adu_len'], len(payload)))
+    if covered != set(range(len(payload))) or bytes(rebuilt[:len(payload)]) != payload:
+        problems.append('forwarded as fragments: the fragments put together by offset (offsets %s) do not give the received payload' % (
+            sorted(dec['primary']['frag_offset'] for dec in frags)[:8]))
+    return sorted(set(problems)), detail
 
 
 def check_forward(bundle, obs, shared=None):
@@ -260,6 +318,11 @@ def run_case(case):
             sample = dict(combo=combo, received=detail['received'][:300], sent=detail.get('sent', '')[:300])
         for item in problems:
             violations.append(dict(key=classify_one(item, detail, bundle), what=item, detail=dict(detail, combo=combo)))
+        if idx % 5 == 0 and not problems and shared is None:
+            # (a second simulated world cannot run beside the shared agent's, so not in the history cases)
+            fproblems, fdetail = check_forward_fragmented(bundle, obs)
+            for item in fproblems:
+                violations.append(dict(key=None, what=item, detail=dict(fdetail or {}, combo=combo)))
     uniq = {}
     for viol in violations:
         uniq.setdefault((viol['key'], viol['what'][:40]), viol)
